@@ -354,11 +354,13 @@ impl<F: Field> Circuit<F> {
                         && !a_aliased_by_out
                     {
                         F::TWO // creator (private input or hint output)
-                    } else if a_aliased_by_out && *kind != AluOpKind::BoolCheck {
+                    } else if a_aliased_by_out {
                         // `a` shares its witness with the `out` this row creates (e.g.
-                        // `connect(x, x + y)`): it must read that slot, or the `a` column would
-                        // float free of the value every other table sees. BoolCheck is exempt:
-                        // its AIR ties `a` to `out` directly.
+                        // `connect(x, x + y)`, or a BoolCheck whose value is first defined by
+                        // the check itself: `assert_bool` on a private input or hint output).
+                        // It must read that slot: the BoolCheck constraint `a * (a - 1) = 0`
+                        // speaks about the `a` column only, so an `a` that is not on the bus
+                        // would leave the shared value unconstrained.
                         F::ONE
                     } else {
                         F::ZERO // skip
